@@ -124,6 +124,34 @@ def step_result_aggs(fx):
                     yield f, bi, s
 
 
+def wake_up_rule(fx, ck, name):
+    """No lost wake-up: every take_ready() is dominated by check_resolved_promises() (shared by C07 and C08)."""
+    ck.rule(name, "in step(): wait_graph.take_ready() is dominated by check_resolved_promises()", floor=1)
+    st = fx.one("interpreter::Interpreter::step")
+    checks = [bi for bi, t in st.calls() if t[1].get("d", "").endswith("Interpreter::check_resolved_promises")]
+    takes = [(bi, t) for bi, t in st.calls() if t[1].get("d", "").endswith("WaitGraph::take_ready")]
+    ck.anchor(bool(takes), "call of WaitGraph::take_ready in Interpreter::step")
+    for bi, t in takes:
+        ok = any(st.dominates(c, bi) for c in checks)
+        ck.instance(name, "step/take_ready", F.short_span(t[6]), ok=ok)
+        if not ok:
+            ck.finding(name, name + "/step", F.short_span(t[6]),
+                       "step() takes a ready context without first moving waiters of settled promises to the ready queue (check_resolved_promises): "
+                       "a promise settled by any route other than the api helpers never wakes its waiter")
+    # every other caller of take_ready must do the same
+    for f in fx.fns.values():
+        if f.path == st.path:
+            continue
+        for bi, t in f.calls():
+            if t[1].get("d", "").endswith("WaitGraph::take_ready"):
+                cs = [b for b, tt in f.calls() if tt[1].get("d", "").endswith("Interpreter::check_resolved_promises")]
+                ok = any(f.dominates(c, bi) for c in cs)
+                ck.instance(name, "%s/take_ready" % f.path, F.short_span(t[6]), ok=ok)
+                if not ok:
+                    ck.finding(name, name + "/%s" % f.path, F.short_span(t[6]), "`%s` takes a ready context without check_resolved_promises()" % f.path)
+
+
+
 def run(tier):
     ck = Check("C08", tier, "operand-provenance + dominance templates on StepResult constructions, who-may-write table, must-pass-through in step(), per-variant sibling comparison",
                ["progress after the host has answered everything outstanding", "settlement of Promise.any/allSettled/race over host promises",
@@ -248,30 +276,7 @@ def run(tier):
             ck.finding("R4.ledger-writers", "R4.ledger-writers/%s" % f.parent, F.short_span(f.span),
                        "`%s` mutates the order ledger (%s) but is not one of the designated ledger functions" % (f.parent, ", ".join(sorted(mut))))
 
-    # R5 wake-up
-    ck.rule("R5.wake-up", "in step(): wait_graph.take_ready() is dominated by check_resolved_promises()", floor=1)
-    st = fx.one("interpreter::Interpreter::step")
-    checks = [bi for bi, t in st.calls() if t[1].get("d", "").endswith("Interpreter::check_resolved_promises")]
-    takes = [(bi, t) for bi, t in st.calls() if t[1].get("d", "").endswith("WaitGraph::take_ready")]
-    ck.anchor(bool(takes), "call of WaitGraph::take_ready in Interpreter::step")
-    for bi, t in takes:
-        ok = any(st.dominates(c, bi) for c in checks)
-        ck.instance("R5.wake-up", "step/take_ready", F.short_span(t[6]), ok=ok)
-        if not ok:
-            ck.finding("R5.wake-up", "R5.wake-up/step", F.short_span(t[6]),
-                       "step() takes a ready context without first moving waiters of settled promises to the ready queue (check_resolved_promises): "
-                       "a promise settled by any route other than the api helpers never wakes its waiter")
-    # every other caller of take_ready must do the same
-    for f in fx.fns.values():
-        if f.path == st.path:
-            continue
-        for bi, t in f.calls():
-            if t[1].get("d", "").endswith("WaitGraph::take_ready"):
-                cs = [b for b, tt in f.calls() if tt[1].get("d", "").endswith("Interpreter::check_resolved_promises")]
-                ok = any(f.dominates(c, bi) for c in cs)
-                ck.instance("R5.wake-up", "%s/take_ready" % f.path, F.short_span(t[6]), ok=ok)
-                if not ok:
-                    ck.finding("R5.wake-up", "R5.wake-up/%s" % f.path, F.short_span(t[6]), "`%s` takes a ready context without check_resolved_promises()" % f.path)
+    wake_up_rule(fx, ck, "R5.wake-up")
 
     # R6 siblings
     import c19
